@@ -37,3 +37,18 @@ Definition r_unblind (bf s1 s2 : Z) : list Z := vsig (unblind (fq bf) (sig s1 s2
 Definition r_blind (pk : pkey K) (ms : list Z) (bf : Z) : list Z := [v (blind pk (fqs ms) (fq bf))].
 Definition r_blind_sign (sk : skey K) (pk : pkey K) (u c : Z) : list Z :=
   vsig (blind_sign sk pk (fq u) (fq c)).
+
+(** a chain of signature transformations, evaluated step by step; each step reports the
+    signature and whether it verifies on [ms]:  (1,r,_) randomize, (2,r,bf) blind_and_randomize,
+    (3,bf,_) unblind *)
+Fixpoint r_chain_go (pk : pkey K) (ms : list Z) (s : sigt K) (ops : list (Z * Z * Z)) : list Z :=
+  match ops with
+  | [] => []
+  | (t, a, b) :: ops =>
+      let s' := if t =? 1 then randomize (fq a) s
+                else if t =? 2 then blind_and_randomize (fq a) (fq b) s
+                else if t =? 3 then unblind (fq a) s else s in
+      vsig s' ++ [b2z (verify pk (fqs ms) s')] ++ r_chain_go pk ms s' ops
+  end.
+Definition r_chain (pk : pkey K) (ms : list Z) (s1 s2 : Z) (ops : list (Z * Z * Z)) : list Z :=
+  [b2z (verify pk (fqs ms) (sig s1 s2))] ++ r_chain_go pk ms (sig s1 s2) ops.
